@@ -51,6 +51,19 @@ pub fn random_policy(seed: &mut u64, n: usize, maxchunk: usize) -> Policy {
 
 pub const ROW_LIMIT: usize = 5000;
 
+/// variant names of a frontend error, MultipleErrors flattened, wrappers (FilterTypeError / ValidationError / ParseError) replaced by their inner variant
+pub fn error_kinds(e: &trustfall_core::frontend::error::FrontendError) -> Vec<String> {
+    use trustfall_core::frontend::error::FrontendError as FE;
+    fn head(s: String) -> String { s.chars().take_while(|c| c.is_alphanumeric() || *c == '_').collect() }
+    match e {
+        FE::MultipleErrors(v) => v.0.iter().flat_map(error_kinds).collect(),
+        FE::FilterTypeError(x) => vec![head(format!("{x:?}"))],
+        FE::ValidationError(x) => vec![head(format!("{x:?}"))],
+        FE::ParseError(x) => vec![format!("Parse:{}", head(format!("{x:?}")))],
+        other => vec![head(format!("{other:?}"))],
+    }
+}
+
 pub fn observe(inst: &Value, modes: &[String], ctx: &mut Ctx, seed: u64) -> Value {
     let has = |m: &str| modes.iter().any(|x| x == m || x.starts_with(&format!("{m}:")));
     let modeval = |m: &str, d: usize| modes.iter().find_map(|x| x.strip_prefix(&format!("{m}:")).map(|v| v.parse().unwrap())).unwrap_or(d);
@@ -63,7 +76,7 @@ pub fn observe(inst: &Value, modes: &[String], ctx: &mut Ctx, seed: u64) -> Valu
     let s2 = schema.clone();
     let iq = match panic::catch_unwind(AssertUnwindSafe(|| parse(&s2, &text))) {
         Ok(Ok(iq)) => iq,
-        Ok(Err(e)) => { obs["compile"] = json!({"t":"err","err": e.to_string(), "dbg": format!("{e:?}").chars().take(300).collect::<String>()}); return obs; }
+        Ok(Err(e)) => { obs["compile"] = json!({"t":"err","err": e.to_string(), "dbg": format!("{e:?}").chars().take(300).collect::<String>(), "kinds": error_kinds(&e)}); return obs; }
         Err(p) => { obs["compile"] = json!({"t":"panic","err": panic_msg(p)}); return obs; }
     };
     obs["compile"] = json!({"t":"ok"});
